@@ -82,6 +82,8 @@ def exotic_terms(x, rng, txt, pos=None):
             return [exotic_terms(t, rng, txt, "spog"[k]) for k, t in enumerate(x)]      # a triple pattern / quad template
         return [exotic_terms(y, rng, txt, pos) for y in x]
     if isinstance(x, dict):
+        if x.get("t") == "bind":
+            return x          # arguments of BIND(CONCAT(..)) are variables and plain string literals in the supported fragment
         if x.get("t") == "values":
             return dict(x, rows=[[exotic_terms(t, rng, txt, "o") for t in row] for row in x["rows"]])
         if x.get("t") == "graph":
@@ -137,6 +139,8 @@ def gen_trees(seed, n):
         lexicals_of(tree, lex)
         txt = {x: G.render(x) for x in lex}
         txt.update(extra)
+        if i % 6 == 5:
+            txt["~sigil"] = "$"
         cases.append({"kind": kind, "tree": tree, "txt": txt})
     return cases
 
